@@ -20,7 +20,7 @@ pub trait ExPattern: Sized {
 #[verifier::external_body]
 pub struct ExIoError(std::io::Error);
 /// stand-in: file_matches_pathspecs takes a `_repo` it never uses
-pub struct Repository { pub _opaque: () }
+#[verifier::external_body] pub struct Repository { _o: () }
 
 pub mod strx {
     use vstd::prelude::*;
